@@ -54,15 +54,37 @@ THEOREMS = [NS + t for t in (
     "C11_rec_preorder",
     "C11_rec_history",
     "C11_rec_refine_step",
+    "C11_getslice",
+    "C11_rec_acyclic_ranked",
+    "C11_rec_static_ranked",
+    "C11_rec_terminates_acyclic",
+    "C11_rec_terminates_acyclic_any",
+    "C11_rec_preorder_acyclic",
+    "C11_rec_history_acyclic",
+    "C11_rec_selfnest_diverges",
+    "C11_trav_start",
+    "C11_trav_only_members",
+    "C11_trav_history",
+    "C11_trav_remaining",
+    "C11_trav_preorder",
+    "C11_trav_attached_later_visited",
+    "C11_trav_attr_edit_agree",
+    "C11_trav_finished_not_visited",
+    "C11_trav_detached_runs_to_end",
 )]
 ASSUMPTIONS = [
     "CPython generators are modelled as explicit cursors (suspended at the yield; the loop reads box.next / box.prev "
     "when resumed); id() of live objects is injective; dict is modelled as an association list",
     "single-threaded use; only the public editing calls of DoublyLinkedSet / Graph / Function (no raw box access)",
-    "RecursiveGraphIterator: nested generators are modelled as an explicit stack of frames; node attributes (the "
-    "nesting) are not edited during a history (editing a dict while its view is iterated raises in CPython); "
-    "termination and pre-order assume a well-founded nesting (rank function), which the harness' nestings have (trees, "
-    "and DAGs with a shared subgraph)",
+    "RecursiveGraphIterator: nested generators are modelled as an explicit stack of frames.  Termination / pre-order no "
+    "longer assume a rank function: the hypothesis is the decidable predicate 'no graph is nested in itself' "
+    "(RWorld.acyclic / acyclicStatic + homedOk; TWorld.acyclic), evaluated by the driver on every generated case "
+    "(histogram keys rec-shape:*, acyclic=, tree_shape=); on a self-nested graph the model diverges and the real "
+    "iterator ends in RecursionError (observed, not modelled: CPython's recursion limit)",
+    "attribute edits (Model/Traversal.lean): node.attributes is modelled as a CPython dict at the level of its entries "
+    "table (insertion order, dead slots, usable-slot count, compaction on insertion_resize) and its key iterator "
+    "(di_used / len / di_pos); UserDict / MutableMapping methods are reduced to __setitem__ / __delitem__; Attr objects "
+    "are immutable (value is a read-only property, GRAPHS values are tuples)",
     "callbacks (enter_graph / exit_graph / recursive) observe only: they do not edit graphs or attributes",
 ]
 
@@ -719,6 +741,11 @@ class Hist:
         try:
             if op["o"] == "get":
                 r = b.get(op["i"])
+            elif op["o"] == "slice":
+                try:
+                    r = [b.oid(o) for o in b.c[slice(op.get("a"), op.get("b"), op.get("k"))]]
+                except ValueError:
+                    r = None
             elif op["o"] == "has":
                 r = b.has(op["v"])
             else:
@@ -734,6 +761,8 @@ class Hist:
         if op["o"] == "get":
             i = op["i"]
             want = L[i] if -len(L) <= i < len(L) else None
+        elif op["o"] == "slice":
+            want = L[slice(op.get("a"), op.get("b"), op.get("k"))] if op.get("k") != 0 else None
         elif op["o"] == "has":
             want = op["v"] in L
         else:
@@ -918,8 +947,15 @@ def _random_history1(kind, rng, part, n0, nops, universe, confirm):
             h.new_iter(rng.choice("fr"))
         elif r < 0.12:
             n = len(h.ref.L)
-            q = rng.choice(["get", "get", "has", "len"])
-            if q == "get":
+            q = rng.choice(["get", "get", "has", "len", "slice", "slice"])
+            if q == "slice":
+                op = {"o": "slice"}
+                for key_, lo, hi in (("a", -n - 3, n + 3), ("b", -n - 3, n + 3), ("k", -3, 4)):
+                    if rng.random() < 0.7:
+                        op[key_] = rng.randrange(lo, hi)
+                h.query(op)
+                part.count("slice-step=" + ("none" if "k" not in op else "0" if op["k"] == 0 else "neg" if op["k"] < 0 else "pos"))
+            elif q == "get":
                 h.query({"o": "get", "i": rng.randrange(-n - 2, n + 2)})
             elif q == "has":
                 h.query({"o": "has", "v": rng.randrange(h.universe)})
@@ -1009,7 +1045,7 @@ def run_explicit(kind, n0, universe, dirs, pre, ops, part, light=True):
                     h.new_iter(op["d"])
                 elif o == "next":
                     h.step(op["k"])
-                elif o in ("get", "has", "len"):
+                elif o in ("get", "has", "len", "slice"):
                     h.query(dict(op))
                 elif o == "sort":
                     h.do_sort(random.Random(0), perm=op.get("vs"))
@@ -1199,6 +1235,7 @@ def _recursive_history(rng, part, nops, tag, confirm):
         "sets": inits,
         "attrs": [[nid(*k), [({"g": v} if kind == "g" else {"gs": v}) for kind, v in sp]] for k, sp in attr_spec.items()],
         "recf": None if pred_false is None else sorted(nid(g, i) for g, s_ in pred_false.items() for i in s_),
+        "homediv": 10,
         "ops": [],
     }
     real = []  # per op what the real objects did (same shape as the model's answers)
@@ -1434,7 +1471,9 @@ def _recursive_history(rng, part, nops, tag, confirm):
         depth += 1
     part.case(["rec", log], nontrivial=len(its) > 0, kind="recursive", ngraphs=ngraphs, nested_depth=depth,
               predicate=pred_false is not None)
-    return {"req": req, "real": real, "case": {"log": log, "rec_seed": tag, "nops": nops}}
+    return {"req": req, "real": real, "case": {"log": log, "rec_seed": tag, "nops": nops},
+            "shape": {"acyclic_f": True, "acyclic_r": True, "static_f": True, "static_r": True, "homed": True,
+                      "unshared": not shared, "tree": not shared}}
 
 
 def compare_rec(ctx, packs):
@@ -1453,6 +1492,596 @@ def compare_rec(ctx, packs):
                 ctx.disagree(f"recursive model != implementation on {bad} at step {i} ({p['req']['ops'][i]})", p["case"],
                              {k: m.get(k) for k in bad}, {k: r[k] for k in bad})
                 break
+        if p.get("shape") is not None:
+            # the decidable hypotheses of the C11_rec_*_acyclic theorems, evaluated by the driver on this case, against
+            # what the generator built (a tree, or a DAG with one shared subgraph; never a cycle)
+            sh = out.get("shape") or {}
+            for k_, v_ in sh.items():
+                ctx.count(f"rec-shape:{k_}={v_}")
+            if sh != p["shape"]:
+                ctx.disagree("recursive: the model's nesting predicates differ from how the nesting was generated", p["case"],
+                             sh, p["shape"])
+
+
+# ----------------------------------------------------------------------------- recursive iteration + attribute edits
+
+TKEYS = ["a0", "a1", "a2", "a3", "alpha", "ref_g"]  # attribute names; the model's key id is the index
+
+
+def _mk_attr(ir, graphs, key, aval):
+    """aval: ("g", h) | ("gs", [h..]) | ("x",) (a FLOAT attribute) | ("ref",) (a reference attribute of GRAPH type)"""
+    name = TKEYS[key]
+    if aval[0] == "g":
+        return ir.AttrGraph(name, graphs[aval[1]])
+    if aval[0] == "gs":
+        return ir.AttrGraphs(name, [graphs[h] for h in aval[1]])
+    if aval[0] == "ref":
+        return ir.RefAttr(name, "outer", ir.AttributeType.GRAPH)
+    return ir.AttrFloat32(name, 1.0)
+
+
+def _aval_json(aval):
+    return {"g": aval[1]} if aval[0] == "g" else ({"gs": list(aval[1])} if aval[0] == "gs" else {"x": 0})
+
+
+def _aval_graphs(aval):
+    return [aval[1]] if aval[0] == "g" else (list(aval[1]) if aval[0] == "gs" else [])
+
+
+class TravWorld:
+    """Real nested graphs whose node attributes are edited, the request for the model (`lset.trav`), and the harness'
+    own bookkeeping (current sequences, current attributes, and - from each iterator's own enter/exit/yield events -
+    the stack of graphs it is in and the node it is expanding at every level)."""
+
+    def __init__(self, part, confirm, ngraphs, per, inits, attr0, pred_false, case, sigprefix="recursive-attr"):
+        import onnx_ir as ir
+
+        self.ir, self.part, self.confirm, self.case, self.sigprefix = ir, part, confirm, case, sigprefix
+        self.ngraphs, self.per, self.pred_false = ngraphs, per, pred_false
+        self.graphs = [ir.Graph(inputs=[], outputs=[], nodes=[], name=f"g{g}") for g in range(ngraphs)]
+        self.gid = {id(g): i for i, g in enumerate(self.graphs)}
+        self.nodes, self.cur = {}, {}
+        for g in range(ngraphs):
+            for i in range(per):
+                spec = attr0.get((g, i), [])
+                self.nodes[(g, i)] = ir.Node("", "Op", inputs=[], num_outputs=1, name=f"g{g}n{i}",
+                                             attributes=[_mk_attr(ir, self.graphs, k, a) for k, a in spec])
+                self.cur[(g, i)] = {k: a for k, a in spec}
+        self.ident = {id(n): key for key, n in self.nodes.items()}
+        self.L = [list(x) for x in inits]
+        for g in range(ngraphs):
+            self.graphs[g].extend([self.nodes[(g, i)] for i in inits[g]])
+        self.req = {
+            "m": "lset.trav",
+            "sets": [[nid(g, i) for i in inits[g]] for g in range(ngraphs)],
+            "attrs": [[nid(*key), [[k, _aval_json(a)] for k, a in spec]] for key, spec in attr0.items()],
+            "recf": None if pred_false is None else sorted(nid(g, i) for g, s_ in pred_false.items() for i in s_),
+            "ops": [],
+        }
+        self.real = []
+        self.its = []  # dicts: it, ev, rev, evstack, lastat, yields, stale, done
+        self.failed = []
+
+    # -- reporting
+    def fail(self, clause, what):
+        self.failed.append(clause)
+        sig = f"{self.sigprefix}:{clause}"
+        if sig in _SEEN_SIGS:
+            return
+        _SEEN_SIGS.add(sig)
+        self.part.fail(sig, what, self.case)
+
+    # -- the nesting as the harness sees it
+    def kids(self, g):
+        out = []
+        for i in self.L[g]:
+            if self.pred_false is not None and i in self.pred_false.get(g, ()):
+                continue
+            for a in self.cur[(g, i)].values():
+                out += _aval_graphs(a)
+        return out
+
+    def cyclic(self):
+        color = {}
+
+        def dfs(g):
+            color[g] = 1
+            for h in self.kids(g):
+                if color.get(h) == 1 or (h not in color and dfs(h)):
+                    return True
+            color[g] = 2
+            return False
+
+        return any(g not in color and dfs(g) for g in range(self.ngraphs))
+
+    def attached(self):
+        return {h for spec in self.cur.values() for a in spec.values() for h in _aval_graphs(a)}
+
+    # -- iterators
+    def new_iter(self, rev, flavour="plain"):
+        from onnx_ir import traversal
+
+        ev = []
+        kw = {}
+        if self.pred_false is not None:
+            def pred(n, ev=ev):
+                g, i = self.ident[id(n)]
+                ev.append(["p", nid(g, i)])
+                return i not in self.pred_false.get(g, ())
+            kw["recursive"] = pred
+        it = traversal.RecursiveGraphIterator(
+            self.graphs[0], reverse=(not rev) if flavour == "reversed" else rev,
+            enter_graph=lambda g, ev=ev: ev.append(["en", self.gid[id(g)]]),
+            exit_graph=lambda g, ev=ev: ev.append(["ex", self.gid[id(g)]]), **kw)
+        if flavour == "reversed":
+            it = reversed(it)
+        self.its.append({"it": it, "ev": ev, "rev": rev, "evstack": [], "lastat": {}, "yields": [], "stale": False,
+                         "done": False})
+        self.req["ops"].append({"o": "iter", "rev": rev})
+        self.real.append({"r": len(self.its) - 1})
+        return len(self.its) - 1
+
+    def position(self, k):
+        """-> (graph stack, node being expanded at every level but the innermost, innermost last yielded node)"""
+        c = self.its[k]
+        es = c["evstack"]
+        levels = (len(es) + 1) // 2
+        stack = [es[2 * j] for j in range(levels)] if es else []
+        expanding = [c["lastat"].get(j) for j in range(levels - 1)]
+        current = c["lastat"].get(levels - 1) if levels else None
+        return stack, expanding, current
+
+    def next(self, k, record=True):
+        c = self.its[k]
+        ev = c["ev"]
+        del ev[:]
+        try:
+            n = guarded_next(c["it"])
+            g, i = self.ident[id(n)]
+            if n.graph is not self.graphs[g] or n not in self.graphs[g]:
+                self.fail("yield-nonmember", f"recursive iterator yielded {(g, i)} which is not in its graph")
+            out, got = list(ev) + [["y", g, nid(g, i)]], nid(g, i)
+        except StopIteration:
+            out, got = list(ev), STOP
+            c["done"] = True
+        except _Hang:
+            if not self.confirm:
+                raise _HangAbort() from None
+            self.fail("no-termination", f"next() on a recursive iterator used more than {CPU_BUDGET} s of CPU time, also "
+                                        "when the history was executed a second time")
+            raise _HangConfirmed() from None
+        except RuntimeError as e:
+            out, got = list(ev), RAISED
+            c["done"] = True
+            if not c["stale"] or "dictionary" not in str(e):
+                self.fail("next-raised", f"RuntimeError: {e} although no attribute was added to / deleted from a node "
+                                         "whose subgraphs this iterator was visiting")
+            else:
+                self.part.count("attr-edit-at-cursor=RuntimeError")
+        except Exception as e:  # noqa: BLE001
+            out, got = list(ev), RAISED
+            c["done"] = True
+            self.fail("next-raised", f"{type(e).__name__}: {e}")
+        # the iterator's own events give the stack of graphs it is in (root: one enter; every subgraph: two)
+        for o in out:
+            if o[0] == "en":
+                c["evstack"].append(o[1])
+            elif o[0] == "ex":
+                c["evstack"].pop()
+            elif o[0] == "y":
+                c["lastat"][(len(c["evstack"]) + 1) // 2 - 1] = o[2]
+                c["yields"].append(o[2])
+        levels = (len(c["evstack"]) + 1) // 2
+        for j in [j for j in c["lastat"] if j >= levels]:
+            del c["lastat"][j]
+        if record:
+            self.req["ops"].append({"o": "next", "k": k})
+            self.real.append({"out": out, "r": got})
+        return out, got
+
+    # -- edits
+    def node_edit(self, g, e, call, refcall):
+        ok = True
+        try:
+            call()
+        except (ValueError, TypeError):
+            ok = False
+        except Exception as ex:  # noqa: BLE001
+            ok = False
+            self.fail("edit-raised", f"{e} raised {type(ex).__name__}: {ex}")
+        if ok:
+            refcall()
+        now = [[self.ident[id(n)][1] for n in gr] for gr in self.graphs]
+        self.req["ops"].append({"o": "edit", "g": g, "e": e})
+        self.real.append({"r": ok, "L": [[nid(g2, i) for i in l] for g2, l in enumerate(now)]})
+        self.L = now
+
+    def set_attr(self, key, k, aval, how="setitem"):
+        """node.attributes[name] = attr / .add(attr) / .update({name: attr})"""
+        node = self.nodes[key]
+        attr = _mk_attr(self.ir, self.graphs, k, aval)
+        size_changes = k not in self.cur[key]
+        if how == "add":
+            node.attributes.add(attr)
+        elif how == "update":
+            node.attributes.update({TKEYS[k]: attr})
+        else:
+            node.attributes[TKEYS[k]] = attr
+        self._after_attr(key, size_changes)
+        self.cur[key][k] = aval
+        self.req["ops"].append({"o": "seta", "v": nid(*key), "k": k, "a": _aval_json(aval)})
+        self.real.append({"r": True})
+
+    def del_attr(self, key, k, how="del"):
+        node = self.nodes[key]
+        ok = True
+        try:
+            if how == "pop":
+                node.attributes.pop(TKEYS[k])
+            else:
+                del node.attributes[TKEYS[k]]
+        except KeyError:
+            ok = False
+        if ok != (k in self.cur[key]):
+            self.fail("attr-del", f"del attributes[{TKEYS[k]}] returned normally={ok} with keys {sorted(self.cur[key])}")
+        if ok:
+            self._after_attr(key, True)
+            self.cur[key].pop(k, None)
+        self.req["ops"].append({"o": "dela", "v": nid(*key), "k": k})
+        self.real.append({"r": ok})
+
+    def clear_attrs(self, key):
+        """node.attributes.clear() is MutableMapping.clear: popitem() until empty = delete the keys in order"""
+        node = self.nodes[key]
+        keys = list(self.cur[key])
+        node.attributes.clear()
+        for k in keys:
+            self._after_attr(key, True)
+            del self.cur[key][k]
+            self.req["ops"].append({"o": "dela", "v": nid(*key), "k": k})
+            self.real.append({"r": True})
+
+    def _after_attr(self, key, size_changes):
+        v = nid(*key)
+        for k, c in enumerate(self.its):
+            if c["done"]:
+                continue
+            _stack, expanding, _cur = self.position(k)
+            if size_changes and v in expanding:
+                c["stale"] = True
+
+    def check_attrs(self):
+        for key, node in self.nodes.items():
+            got = list(node.attributes.keys())
+            want = [TKEYS[k] for k in self.cur[key]]
+            if got != want:
+                self.fail("attr-keys", f"attribute keys of node {key} are {got}, expected {want}")
+
+    def drain(self, k, bound):
+        c = self.its[k]
+        stream, res = [], None
+        for _ in range(bound):
+            out, got = self.next(k, record=False)
+            stream += out
+            if got in (STOP, RAISED):
+                res = got
+                break
+        else:
+            res = "no-termination"
+            self.fail("no-termination", f"recursive iterator {k} still yields after {bound} steps without edits")
+        self.req["ops"].append({"o": "drain", "k": k})
+        self.real.append({"out": stream, "r": res})
+        return stream, res
+
+    def pack(self):
+        return {"req": self.req, "real": self.real, "case": self.case}
+
+
+def trav_history(rng, part, nops, tag=None):
+    state = rng.getstate()
+
+    def run(confirm):
+        rng.setstate(state)
+        try:
+            return _trav_history(rng, part, nops, tag, confirm)
+        except _HangConfirmed:
+            return {"aborted": True}
+
+    return run_confirmed(run)
+
+
+def _trav_history(rng, part, nops, tag, confirm):
+    """Nested graphs; next() on RecursiveGraphIterator interleaved with edits of node sequences AND of node attributes
+    (add / replace / delete GRAPH, GRAPHS and other attributes through __setitem__, add, update, del, pop, clear) on
+    nodes before, at and after the position of the iterators, including the nodes whose subgraphs are being visited."""
+    ngraphs = rng.randrange(3, 7)
+    attr0 = {}
+    nattached = rng.randrange(1, ngraphs)
+    for g in range(1, nattached + 1):
+        key = (rng.randrange(g), rng.randrange(PER))
+        spec = attr0.setdefault(key, [])
+        free = [k for k in range(4) if k not in [x[0] for x in spec]]
+        if not free:
+            continue
+        spec.append((rng.choice(free), ("g", g) if rng.random() < 0.6 else ("gs", [g])))
+    for g in range(ngraphs):
+        for i in range(PER):
+            r = rng.random()
+            if r < 0.2:
+                attr0.setdefault((g, i), []).insert(0, (4, ("x",)))
+            elif r < 0.3:
+                attr0.setdefault((g, i), []).append((5, ("ref",)))
+    pred_false = None
+    if rng.random() < 0.3:
+        pred_false = {g: {i for i in range(PER) if rng.random() < 0.3} for g in range(ngraphs)}
+    inits = [list(range(rng.randrange(1, 4))) for _ in range(ngraphs)]
+    case = {"trav_seed": tag, "nops": nops}
+    tw = TravWorld(part, confirm, ngraphs, PER, inits, attr0, pred_false, case)
+    cyc_steps = None
+    for _ in range(nops):
+        if cyc_steps is not None:
+            # a graph is nested in itself: a few more next() calls (they all yield), then the history ends
+            if cyc_steps == 0 or not tw.its:
+                break
+            cyc_steps -= 1
+            k = rng.randrange(len(tw.its))
+            if not tw.its[k]["done"]:
+                tw.next(k)
+            continue
+        r = rng.random()
+        if not tw.its or (len(tw.its) < 3 and r < 0.07):
+            tw.new_iter(rng.random() < 0.4, rng.choice(["plain", "plain", "reversed"]))
+        elif r < 0.45:
+            k = rng.randrange(len(tw.its))
+            tw.next(k)
+        elif r < 0.6:
+            g = rng.randrange(ngraphs)
+            L = tw.L[g]
+            kind = rng.choice(["rm", "append", "ia", "ib"])
+            if kind == "rm" and L:
+                x = rng.choice(L)
+                tw.node_edit(g, {"o": "rm", "v": nid(g, x)}, lambda: tw.graphs[g].remove(tw.nodes[(g, x)]), lambda: None)
+            elif kind == "append":
+                x = rng.randrange(PER)
+                tw.node_edit(g, {"o": "append", "v": nid(g, x)}, lambda: tw.graphs[g].append(tw.nodes[(g, x)]), lambda: None)
+            elif L:
+                a, x = rng.choice(L), rng.randrange(PER)
+                fn = tw.graphs[g].insert_after if kind == "ia" else tw.graphs[g].insert_before
+                tw.node_edit(g, {"o": kind, "a": nid(g, a), "vs": [nid(g, x)]}, lambda: fn(tw.nodes[(g, a)], [tw.nodes[(g, x)]]),
+                             lambda: None)
+        else:
+            # attribute edit; the node is chosen relative to an iterator
+            where = rng.choice(["current", "expanding", "expanding", "later", "earlier", "any"])
+            key = None
+            live = [k for k, c in enumerate(tw.its) if not c["done"]]
+            if live and where != "any":
+                k = rng.choice(live)
+                stack, expanding, current = tw.position(k)
+                if where == "current" and current is not None:
+                    key = divmod(current, 10)
+                elif where == "expanding" and expanding:
+                    v = rng.choice([e for e in expanding if e is not None] or [None])
+                    key = divmod(v, 10) if v is not None else None
+                elif stack:
+                    g = rng.choice(stack)
+                    seen = {v for v in tw.its[k]["yields"] if v // 10 == g}
+                    pool = [i for i in tw.L[g] if (nid(g, i) in seen) == (where == "earlier")]
+                    if pool:
+                        key = (g, rng.choice(pool))
+            if key is None:
+                key = (rng.randrange(ngraphs), rng.randrange(PER))
+            have = list(tw.cur[key])
+            att = tw.attached()
+            free = [h for h in range(1, ngraphs) if h not in att]
+            part.count("attr-edit-where=" + where)
+
+            def below(h, seen=None):
+                seen = set() if seen is None else seen
+                if h not in seen:
+                    seen.add(h)
+                    for i in range(PER):  # members or not: a node may be (re)inserted later
+                        for a in tw.cur[(h, i)].values():
+                            for h2 in _aval_graphs(a):
+                                below(h2, seen)
+                return seen
+
+            safe = [h for h in range(1, ngraphs) if key[0] not in below(h)]  # attaching h here creates no cycle
+
+            def some_aval():
+                q = rng.random()
+                # mostly a free graph (the nesting stays a tree); sometimes a shared subgraph; rarely a cycle
+                pool = [h for h in free if h in safe] if q < 0.9 else (safe if q < 0.985 else list(range(ngraphs)))
+                if not pool:
+                    return rng.choice([("x",), ("gs", [])])
+                if rng.random() < 0.08:
+                    return ("x",) if rng.random() < 0.5 else ("ref",)
+                if rng.random() < 0.55:
+                    return ("g", rng.choice(pool))
+                return ("gs", [rng.choice(pool) for _ in range(rng.choice([0, 1, 2, 2]))])
+
+            q = rng.random()
+            if q < 0.4 or not have:
+                newk = [k for k in range(4) if k not in have]
+                if newk:
+                    tw.set_attr(key, rng.choice(newk), some_aval(), rng.choice(["setitem", "add", "update"]))
+                    part.count("attr-edit=add")
+            elif q < 0.7:
+                tw.set_attr(key, rng.choice(have), some_aval(), rng.choice(["setitem", "add", "update"]))
+                part.count("attr-edit=replace")
+            elif q < 0.95:
+                k_ = rng.choice(have) if rng.random() < 0.9 else rng.randrange(4)
+                tw.del_attr(key, k_, rng.choice(["del", "pop"]))
+                part.count("attr-edit=delete")
+            else:
+                tw.clear_attrs(key)
+                part.count("attr-edit=clear")
+            if tw.cyclic():
+                cyc_steps = 12
+                part.count("nesting=cyclic")
+    tw.check_attrs()
+    cyc = tw.cyclic()
+    shared = len(tw.attached()) != sum(len(_aval_graphs(a)) for spec in tw.cur.values() for a in spec.values())
+    if not cyc:
+        total = sum(len(l) for l in tw.L)
+        bound = (ngraphs + 1) * (total + 2) * 3 + 3
+        for k, c in enumerate(tw.its):
+            if not c["done"]:
+                tw.drain(k, bound)
+    part.case(["trav", tag, nops], nontrivial=len(tw.its) > 0, kind="recursive-attr", ngraphs=ngraphs,
+              acyclic=not cyc, tree_shape=(not cyc and not shared), predicate=pred_false is not None)
+    p = tw.pack()
+    p["cyclic"] = cyc
+    return p
+
+
+def _scenario_edits():
+    """every single attribute edit of the exhaustive scenario family: [node, what] with what =
+    ["set", key, aval] | ["del", key]"""
+    out = []
+    for key in [[0, 0], [0, 1], [0, 2], [1, 0], [1, 1]]:
+        for aval in (["g", 2], ["gs", [2, 3]], ["gs", []], ["x"]):
+            out.append([key, ["set", 1, aval]])      # a new key
+        for aval in (["g", 2], ["gs", [3, 2]], ["x"]):
+            out.append([key, ["set", 0, aval]])      # key a0: replaces the attribute of node (0, 1), new elsewhere
+        out.append([key, ["del", 0]])
+    return out
+
+
+def trav_scenario(part, rev, kind0, steps, edit, confirm=False):
+    """Exhaustive family: graph 0 = [n0, n1, n2], graph 1 = [n10, n11] under n1 (attribute a0, GRAPH or GRAPHS), graphs 2 =
+    [n20, n21] and 3 = [n30] not attached.  The iterator is advanced `steps` times, then ONE attribute edit is made, then
+    the iterator is run to its end.  The English clauses are evaluated from the iterator's own events."""
+    attr0 = {(0, 1): [(0, ("g", 1) if kind0 == "g" else ("gs", [1]))]}
+    inits = [[0, 1, 2], [0, 1], [0, 1], [0]]
+    case = {"trav_scenario": {"rev": rev, "kind0": kind0, "steps": steps, "edit": edit}}
+    tw = TravWorld(part, confirm, 4, PER, inits, attr0, None, case, sigprefix="recursive-attr-scenario")
+    k = tw.new_iter(rev)
+    for _ in range(steps):
+        _o, got = tw.next(k)
+        if got in (STOP, RAISED):
+            break
+    c = tw.its[k]
+    stack, expanding, current = tw.position(k)
+    before = list(c["yields"])
+    key, what = tuple(edit[0]), edit[1]
+    v = nid(*key)
+    had = what[1] in tw.cur[key]
+    old = tw.cur[key].get(what[1])
+    if what[0] == "set":
+        aval = tuple(what[2])
+        tw.set_attr(key, what[1], aval)
+        newg = _aval_graphs(aval)
+    else:
+        tw.del_attr(key, what[1])
+        newg = []
+    status = ("done-iterator" if c["done"] else "expanding" if v in expanding else "current" if v == current
+              else "finished" if v in before else "future")
+    stream, res = tw.drain(k, 60) if not c["done"] else ([], STOP)
+    after = [o[2] for o in stream if o[0] == "y"]
+    size_changed = (what[0] == "set" and not had) or (what[0] == "del" and had)
+    # termination without error, unless the attribute dict of a node being expanded changed size
+    if res == RAISED and not (status == "expanding" and size_changed):
+        tw.fail("terminates", f"edit {edit} on a {status} node: the iterator ended with an exception")
+    if res not in (STOP, RAISED):
+        tw.fail("terminates", f"edit {edit} on a {status} node: {res}")
+    members = {h: [nid(h, i) for i in inits[h]] for h in range(4)}
+    for h in set(newg):
+        nodes_h = members[h]
+        cnt = [after.count(x) for x in nodes_h]
+        if status in ("future", "current"):
+            # "a subgraph attached to a node not yet yielded [or whose attributes have not been read] is visited"
+            want = newg.count(h)
+            if res == STOP and any(n_ != want for n_ in cnt):
+                tw.fail("attached-later-visited", f"{edit}: graph {h} attached to the {status} node {v}: its nodes were yielded "
+                                                  f"{cnt} times, expected {want}")
+        elif status in ("finished", "done-iterator"):
+            # "one attached to an already finished node is not"
+            if any(cnt):
+                tw.fail("attached-finished-skipped", f"{edit}: graph {h} attached to the finished node {v} was visited: {after}")
+    if status == "expanding" and old is not None and v == 1 and len(stack) >= 2 and stack[1] == 1:
+        # "a detached subgraph that is being iterated keeps being iterated to its end"
+        seq = members[1][::-1] if rev else members[1]
+        done1 = [x for x in before if x // 10 == 1]
+        remaining = seq[len(done1):]
+        if after[: len(remaining)] != remaining:
+            tw.fail("detached-runs-to-end", f"{edit} while inside graph 1 (yielded {done1}): then {after}, expected first {remaining}")
+    # "nothing is yielded twice unless shared" (the nesting stays a tree: graphs 2 and 3 were free)
+    allv = before + after
+    shared = len(newg) != len(set(newg))
+    if not shared and len(set(allv)) != len(allv):
+        tw.fail("yielded-twice", f"{edit} on a {status} node: yields {allv}")
+    part.case(["trav-scenario", rev, kind0, steps, edit], nontrivial=True, kind="recursive-attr-scenario",
+              status=status, result=str(res))
+    part.count("scenario-edit=" + what[0] + ("-new" if what[0] == "set" and not had else "-replace" if what[0] == "set" else ""))
+    p = tw.pack()
+    p["cyclic"] = False
+    return p
+
+
+def compare_trav(ctx, packs):
+    """`lset.trav` (Model/Traversal.lean) vs the real iterators; the decidable hypotheses of the theorems and the
+    statement of C11_trav_frame_complete (`spec` = what remains, computed before draining) are evaluated by the driver."""
+    packs = [p for p in packs if not p.get("aborted")]
+    outs = _lean([p["req"] for p in packs])
+    for p, out in zip(packs, outs):
+        if "err" in out:
+            ctx.disagree("recursive-attr: model driver error", p["case"], out, None)
+            continue
+        steps = out["steps"]
+        for i, (m, r) in enumerate(zip(steps, p["real"])):
+            bad = [k for k in r if m.get(k) != r[k]]
+            if bad or m.get("inv") is False or m.get("ok") is False:
+                ctx.disagree(f"recursive-attr model != implementation on {bad} at step {i} ({p['req']['ops'][i]})", p["case"],
+                             {k: m.get(k) for k in bad + ["inv", "ok"]}, {k: r[k] for k in bad})
+                break
+            if "fin" in m:
+                # hypotheses / conclusion of C11_trav_finished_not_visited at this attribute edit, per iterator
+                for f_ in m["fin"]:
+                    ctx.count("attr-edit-node-finished=" + str(f_))
+                if not m.get("finok"):
+                    ctx.disagree(f"model: the remaining stream changed at step {i} although the edited node is finished",
+                                 p["case"], m, None)
+                    break
+            if "spec" in m:
+                ctx.count("trav-drain-synced=" + str(m.get("sync")))
+                if m.get("sync") and m.get("acyc") and (m.get("r") != "stop" or m.get("spec") != m.get("out")):
+                    ctx.disagree(f"model: tStackSpec != drain at step {i} although every dict iterator is in step", p["case"],
+                                 {"spec": m.get("spec"), "out": m.get("out"), "r": m.get("r")}, None)
+                    break
+                if m.get("r") == "raised" and m.get("sync"):
+                    ctx.disagree(f"model: raised at step {i} with every dict iterator in step", p["case"], m, None)
+                    break
+        if steps and steps[-1].get("acyc") == p.get("cyclic"):
+            ctx.disagree("recursive-attr: the model's acyclic predicate differs from the harness' cycle search", p["case"],
+                         steps[-1].get("acyc"), not p.get("cyclic"))
+
+
+def _work_trav(job):
+    seed, count = job
+    part = Part()
+    packs = []
+    for i in range(count):
+        tag = f"{seed}:{i}"
+        rng = random.Random(tag)
+        packs.append(trav_history(rng, part, rng.choice([10, 20, 40, 60]), tag))
+    compare_trav(part, packs)
+    return part, []
+
+
+def _work_trav_scen(job):
+    rev, kind0 = job
+    part = Part()
+    packs = []
+    for steps in range(0, 7):
+        for edit in _scenario_edits():
+            def run(confirm, steps=steps, edit=edit):
+                try:
+                    return trav_scenario(part, rev, kind0, steps, edit, confirm)
+                except _HangConfirmed:
+                    return {"aborted": True}
+            packs.append(run_confirmed(run))
+    compare_trav(part, packs)
+    return part, []
 
 
 # ----------------------------------------------------------------------------- two containers, cross moves
@@ -1710,7 +2339,7 @@ def _work_random(job):
         h, _tail = random_history(kind, rng, part, n0, nops, universe)
         if h.aborted:
             continue
-        nedit = sum(1 for o in h.ops if o["o"] not in ("next", "iter", "get", "has", "len"))
+        nedit = sum(1 for o in h.ops if o["o"] not in ("next", "iter", "get", "has", "len", "slice"))
         part.case([kind, h.init, h.ops], nontrivial=nedit > 0 and len(h.curs) > 0,
                   sample={"kind": kind, "init": h.init, "ops": h.ops[:12]},
                   kind=kind, cursors=len(h.curs), edits=min(nedit, 20) // 5 * 5, n0=n0)
@@ -1796,6 +2425,51 @@ def compare(ctx, packs: list[dict]) -> None:
                 break
 
 
+def selfnest_probe(ctx):
+    """A graph nested in itself (the tree-shape predicate fails): the model never finishes (C11_rec_selfnest_diverges); the
+    real iterator must not hang either way - every next() runs under the CPU guard.  Observed: the same nodes are yielded
+    again and again until CPython's recursion limit ends the iteration with RecursionError."""
+    import onnx_ir as ir
+    from onnx_ir import traversal
+
+    for shape in ("self", "two-cycle"):
+        a = ir.Graph(inputs=[], outputs=[], name="a", nodes=[ir.Node("", "Op", inputs=[], num_outputs=1, name="a0")])
+        b = ir.Graph(inputs=[], outputs=[], name="b", nodes=[ir.Node("", "Op", inputs=[], num_outputs=1, name="b0")])
+        if shape == "self":
+            a[0].attributes.add(ir.AttrGraph("a0", a))
+            req = {"m": "lset.trav", "sets": [[0]], "attrs": [[0, [[0, {"g": 0}]]]], "recf": None, "ops": [{"o": "iter", "rev": False}]}
+        else:
+            a[0].attributes.add(ir.AttrGraph("a0", b))
+            b[0].attributes.add(ir.AttrGraphs("a0", [a]))
+            req = {"m": "lset.trav", "sets": [[0], [10]], "attrs": [[0, [[0, {"g": 1}]]], [10, [[0, {"gs": [0]}]]]], "recf": None,
+                   "ops": [{"o": "iter", "rev": False}]}
+        it = traversal.RecursiveGraphIterator(a)
+        n, end = 0, None
+        try:
+            while n < 100000:
+                guarded_next(it, 10.0)
+                n += 1
+        except StopIteration:
+            end = "StopIteration"
+        except _Hang:
+            end = "hang"
+        except RecursionError:
+            end = "RecursionError"
+        except Exception as e:  # noqa: BLE001
+            end = type(e).__name__
+        case = {"selfnest": shape}
+        ctx.case(["selfnest", shape], nontrivial=True, kind="recursive-selfnest", selfnest_end=str(end))
+        ctx.count(f"selfnest:{shape}:yields-before-end={n}")
+        if end in ("hang", None):
+            ctx.fail(f"recursive-selfnest:{shape}:no-termination",
+                     f"RecursiveGraphIterator over a graph nested in itself ({shape}) neither ended nor raised: {end} after {n} yields", case)
+        req["ops"] += [{"o": "next", "k": 0}] * 25
+        out = _lean([req])[0]
+        steps = out.get("steps", [])
+        if "err" in out or any(s_.get("acyc") for s_ in steps) or any(not isinstance(s_.get("r"), int) for s_ in steps[1:]):
+            ctx.disagree(f"selfnest ({shape}): the model's predicate is true or the model stops", case, out, None)
+
+
 def run(ctx: Ctx) -> None:
     ctx.rule = (
         "a case = one history (initial sequence + interleaving of iterator steps and edits) on one container kind; "
@@ -1807,6 +2481,16 @@ def run(ctx: Ctx) -> None:
         replay(ctx, obj)
     for part, _ in pmap(_work_recursive, [(f"C11:{ctx.seed}:rec:{sh}", ctx.pick(60, 600)) for sh in range(16)]):
         ctx.merge(part)
+    selfnest_probe(ctx)
+    for part, _ in pmap(_work_trav, [(f"C11:{ctx.seed}:trav:{sh}", ctx.pick(60, 600)) for sh in range(16)]):
+        ctx.merge(part)
+    for part, _ in pmap(_work_trav_scen, [(rev, kind0) for rev in (False, True) for kind0 in ("g", "gs")]):
+        ctx.merge(part)
+    ctx.exhaustive_scopes.append(
+        "RecursiveGraphIterator with attribute edits: graph 0 = 3 nodes, graph 1 = 2 nodes under the middle node (GRAPH and "
+        "GRAPHS attribute), two free graphs; forward and reverse; the iterator advanced 0..6 times; then every single "
+        "attribute edit from {add a new key, replace / add key a0} x {GRAPH, GRAPHS of two, empty GRAPHS, non-graph} + "
+        "{delete a0} on each of the 5 nodes; then run to the end")
     cjobs = [(kind, f"C11:{ctx.seed}:{kind}:{sh}", ctx.pick(40, 400)) for kind in ("dls2", "graph2") for sh in range(8)]
     for part, _ in pmap(_work_cross, cjobs):
         ctx.merge(part)
@@ -1834,12 +2518,15 @@ def run(ctx: Ctx) -> None:
                     if kind == "function":
                         deep = False
                     depth = 2 if ctx.quick or not deep else 3
+                    if ctx.quick and kind == "dls" and (n0 <= 1 or (n0 == 2 and dirs == "fr" and pre[0] == pre[1])):
+                        depth = 3  # the quick tier reaches 3 operations on the smallest scopes
                     sjobs.append((kind, n0, n0 + 1, dirs, list(pre), depth))
     sjobs.sort(key=lambda j: -j[5] * 10 - j[1])  # long jobs first
     for part, _ in pmap(_work_small, sjobs):
         ctx.merge(part)
     ctx.exhaustive_scopes.append(
-        "DoublyLinkedSet: every sequence of <= 2 operations (thorough: <= 3 for initial sequences of <= 2 nodes and, "
+        "DoublyLinkedSet: every sequence of <= 2 operations (quick: <= 3 for initial sequences of <= 1 node and, for 2 "
+        "nodes, for the direction pair fr with both cursors pre-advanced equally; thorough: <= 3 for initial sequences of <= 2 nodes and, "
         "for 3 nodes, for the direction pair fr) from {next(c0), next(c1), remove x, append x, insert_after(a,[x]), "
         "insert_before(a,[x]), sort (bare container: the re-append of every arrangement of the present nodes)} (x over the initial nodes + 1 fresh node, a over the present nodes) on every initial "
         "sequence of <= 3 nodes with 2 cursors in every direction pair (ff, fr, rr), each pre-advanced by every count "
@@ -1857,6 +2544,21 @@ def replay(ctx: Ctx, obj: dict) -> None:
         pack = recursive_history(rng, part, case["nops"], case["rec_seed"])
         ctx.merge(part)
         compare_rec(ctx, [pack])
+        return
+    if case.get("trav_seed"):
+        part = Part()
+        rng = random.Random(case["trav_seed"])
+        rng.choice([10, 20, 40, 60])
+        pack = trav_history(rng, part, case["nops"], case["trav_seed"])
+        ctx.merge(part)
+        compare_trav(ctx, [pack])
+        return
+    if case.get("trav_scenario"):
+        part = Part()
+        sc = case["trav_scenario"]
+        pack = trav_scenario(part, sc["rev"], sc["kind0"], sc["steps"], sc["edit"])
+        ctx.merge(part)
+        compare_trav(ctx, [pack])
         return
     if case.get("cross_seed"):
         part = Part()
